@@ -105,4 +105,23 @@ def Line3.distanceToLine {α : Type} [Add α] [Sub α] [Mul α] [Div α] [Neg α
     else
       (-t128)
 
+/-- extracted from the C++ template at T = Sym; 2 path(s) -/
+def Line3.mulM44 {α : Type} [Add α] [Sub α] [Mul α] [Div α] [Neg α] [LT α] [LE α] [DecidableLT α] [DecidableLE α] [DecidableEq α] [OfNat α 0] [OfNat α 2] (tmin : α) (tmax : α) (sqrt : α → α) (l : Line3 α) (m : M44 α) : (Line3 α) :=
+  let t146 := (l.pos.z + l.dir.z)
+  let t147 := (l.pos.y + l.dir.y)
+  let t148 := (l.pos.x + l.dir.x)
+  let t172 := ((((t148 * m.x03) + (t147 * m.x13)) + (t146 * m.x23)) + m.x33)
+  let t199 := ((((l.pos.x * m.x03) + (l.pos.y * m.x13)) + (l.pos.z * m.x23)) + m.x33)
+  let t200 := (((((l.pos.x * m.x02) + (l.pos.y * m.x12)) + (l.pos.z * m.x22)) + m.x32) / t199)
+  let t201 := (((((l.pos.x * m.x01) + (l.pos.y * m.x11)) + (l.pos.z * m.x21)) + m.x31) / t199)
+  let t202 := (((((l.pos.x * m.x00) + (l.pos.y * m.x10)) + (l.pos.z * m.x20)) + m.x30) / t199)
+  let t203 := ((((((t148 * m.x02) + (t147 * m.x12)) + (t146 * m.x22)) + m.x32) / t172) - t200)
+  let t204 := ((((((t148 * m.x01) + (t147 * m.x11)) + (t146 * m.x21)) + m.x31) / t172) - t201)
+  let t205 := ((((((t148 * m.x00) + (t147 * m.x10)) + (t146 * m.x20)) + m.x30) / t172) - t202)
+  let t206 := (V3.length tmin tmax sqrt ⟨t205, t204, t203⟩)
+  if t206 = (0 : α) then
+    ⟨⟨t202, t201, t200⟩, ⟨t205, t204, t203⟩⟩
+  else
+    ⟨⟨t202, t201, t200⟩, ⟨(t205 / t206), (t204 / t206), (t203 / t206)⟩⟩
+
 end ImathVerif.Gen
